@@ -730,6 +730,60 @@ func runC19(c *Ctx) {
 	revs := shippedRevs()
 	waived := map[string]bool{"runAsNonRoot": true, "runAsUser": true, "procMount": true}
 	defer policy.RelaxPolicyForUserNamespacePods(false)
+	// whole evaluations with the relaxation on, through ONE long-lived evaluator, baseline and restricted at the same version in
+	// both orders: every control other than the three waived ones applies unchanged (compared with the model's evaluation with
+	// relax = true, and with the same evaluation with the relaxation off)
+	{
+		ev := newRecEvaluator()
+		minors := interestingMinors(false)
+		var eops []J
+		var egot [][]RevResult
+		var ein []J
+		nn := sizes(c, 250, 4000)
+		for i := 0; i < nn; i++ {
+			pc := genPod(r.Fork(), 1000000+i)
+			p := pc.Pod
+			p.Spec.HostUsers = []*bool{bp(false), bp(false), nil, bp(true)}[i%4]
+			m := minors[i%len(minors)]
+			levels := []string{"baseline", "restricted"}
+			if i%2 == 1 {
+				levels = []string{"restricted", "baseline"}
+			}
+			policy.RelaxPolicyForUserNamespacePods(false)
+			off := map[string][]RevResult{}
+			for _, l := range levels {
+				off[l], _ = ev.Eval(mkLV(l, m), p)
+			}
+			policy.RelaxPolicyForUserNamespacePods(true)
+			for _, l := range levels {
+				on, _ := ev.Eval(mkLV(l, m), p)
+				c.Eval(1)
+				in := J{"level": l, "minor": m, "order": levels, "pod": p.DeepCopy()}
+				eops = append(eops, J{"op": "evalPod", "level": l, "version": minorJSON(m), "relax": true, "pod": projectPod(&p.ObjectMeta, &p.Spec)})
+				egot = append(egot, on)
+				ein = append(ein, in)
+				relaxedPod := p.Spec.HostUsers != nil && !*p.Spec.HostUsers
+				if len(on) != len(off[l]) {
+					c.Violate(Finding{Desc: fmt.Sprintf("opting in changes which controls run at %s (%d results, %d without the opt-in)", verName(l, m), len(on), len(off[l])), Key: "on-changes-controls", Input: in, Go: J{"on": bits(on), "off": bits(off[l])}})
+					continue
+				}
+				for k := range on {
+					id := strings.Split(on[k].Rev, "@")[0]
+					if on[k].Rev != off[l][k].Rev || (!(relaxedPod && waived[id]) && !reflect.DeepEqual(on[k], off[l][k])) {
+						c.Violate(Finding{Desc: fmt.Sprintf("with the opt-in, control %s at %s is answered differently (hostUsers=%v), although it is not one of the three waived controls of a hostUsers=false pod", on[k].Rev, verName(l, m), p.Spec.HostUsers), Key: "on-affects-other-controls", Input: in, Go: J{"on": bits(on), "off": bits(off[l])}})
+						break
+					}
+				}
+			}
+			policy.RelaxPolicyForUserNamespacePods(false)
+		}
+		for k, o := range c.Lean(eops) {
+			if lr := leanResults(o); bits(lr) != bits(egot[k]) {
+				c.Disagree(Finding{Desc: "whole evaluation with the relaxation on differs from the model (relax = true)", Input: ein[k], Go: bits(egot[k]), Lean: bits(lr)})
+			}
+		}
+		c.Tag(fmt.Sprintf("c19.wholeEvaluations=%d", len(eops)))
+	}
 	var ops []J
 	var gos []policy.CheckResult
 	for i := 0; i < n; i++ {
